@@ -41,6 +41,8 @@ CONSTANTS
   LitRetype = FALSE
   DepKinds = {}
   Edits = {}
+  TrustCachedID = FALSE
+  PrintReadsTyp = FALSE
   Observers = {"PrintModule"}
   EmitFile = "transitions.ndjson"
 VIEW View
